@@ -1,6 +1,6 @@
 """C17 -- action outcomes are classified exactly and output is captured intact   (model M5, DESIGN §5 C17)
 
-(T) lean/DoitModel/Props/C17.lean: classify_py, py_exec, classify_cmd (+_status, _signal), cmd_exec, task_execute,
+(T) lean/DoitModel/Props/C17.lean: classify_py, py_exec, tools_actions, classify_cmd (+_status, _signal), cmd_exec, task_execute,
     teardown_execute, task_values_lookup, classification_verbosity_independent, writer_interface, restore_nested (+_any, restore_exec, forest_well_nested), restore_nested_live (the machine
     with the Writer's live copy, + forest_well_nested_live), live_rule; counterexamples
     overlap_counterexample(_min) (F-C17a, open) and pinned_kwargs_counterexample (F-C17b, fixed).
@@ -59,14 +59,21 @@ META = {
     'rule': 'py: category x representative x io.capture x verbosity x writes x kwargs-raise x callable-swaps-stream x '
             'stream methods other than write (print, flush, isatty, fileno, writelines, .buffer.write, .encoding, .errors, '
             'reconfigure; such a case is also run at verbosity 0, 1 and 2: same outcome, shown live is captured); '
-            'cmd: exit 0..255 / signal / child signal x byte chunks (non-UTF-8, no trailing newline, up to 256 KiB, '
+            'cmd (also doit.tools LongRunning / Interactive, interrupted or not; PythonInteractiveAction for py; CmdAction '
+            'encoding / decode_error / env= / cwd= / command builders returning str or list or taking magic kwargs and a '
+            'task parameter / action_string_formatting old, new, both with literal % and braces): '
+            'exit 0..255 / signal / child signal x byte chunks (non-UTF-8, no trailing newline, up to 256 KiB, '
             'interleaved) x capture True/False/None x verbosity x save_out x expansion errors; task: 1..5 mixed '
             'actions, unsuccessful action in every position; nested: random forests of executions (depth<=4) with '
             'per-action verbosity and ending; overlap: 2-3 threads, forced interleavings of start/write/end; runner: whole '
             '`doit run`s (serial / process / thread runner; independent, chained or forced-to-overlap tasks) observed '
-            'through a reporter class or through `-r json` (incl. runs aborted mid-task and an unwritable report). '
+            'through a reporter class or through `-r json` (incl. runs aborted mid-task and an unwritable report), with '
+            'io.capture False/None and task-level verbosity per task, cmd-actions with save_out and dict values crossing '
+            'the process boundary; built-in console reporter (titles, failure_verbosity 0/1/2; monitors only). '
             'non-trivial = produces output or a non-ok outcome or >1 action; distinct = canonical JSON of the case',
-    'assumptions': ['CmdAction decode_error=replace and encoding=utf-8 (the defaults); every buffering value',
+    'assumptions': ['CmdAction: encodings utf-8 / latin-1 / utf-16 (with BOM) / utf-16-le, decode_error replace / ignore / '
+                    'strict; when the codec raises (strict on undecodable bytes) the reader thread terminates the process: '
+                    'that path is monitors-only (counter cmd.monitors_only:decode-error-path)',
                     'io.capture False/None is documented as "not captured": the capture clause is read for capture on',
                     'one stream machine per channel: stdout and stderr cells are independent'],
     'trusted': ['subprocess, pipes, reader threads, bytes.decode: exercised through the real CmdAction, not modelled',
@@ -123,12 +130,16 @@ def ret_json(ret):
 def py_req(a, capture=True):
     # the recorders have no file descriptor: liveFd = false
     return {'model': 'act', 'op': 'py', 'kwargsRaise': bool(a.get('kwargs_raise')), 'ret': ret_json(a['ret']),
-            'ops': [actlib.op_kind(w) for w in a.get('writes', [])], 'capture': bool(capture), 'liveFd': False}
+            'ops': [actlib.op_kind(w) for w in a.get('writes', [])], 'capture': bool(capture), 'liveFd': False,
+            'interactive': a.get('cls') == 'interactive'}
 
 
 def cmd_req(a, cap):
     expand = a.get('expand', 'ok') != 'ok'
     out, err = ('', '') if expand else actlib.expected_streams(a)
+    if a.get('cls', 'CmdAction') != 'CmdAction':
+        return {'model': 'act', 'op': 'tool', 'cls': a['cls'], 'expandRaises': expand,
+                'interrupt': bool(a.get('interrupt')), 'rc': actlib.expected_rc(a)}
     return {'model': 'act', 'op': 'cmd', 'expandRaises': expand, 'cap': cap_class(cap),
             'saveOut': a.get('save_out'), 'rc': actlib.expected_rc(a), 'out': out, 'err': err}
 
@@ -137,10 +148,14 @@ def requests_for(case):
     k = case['kind']
     if k == 'py':
         cap = case.get('capture', True)
+        if case.get('cls') == 'interactive':
+            cap = False
         return [py_req(case, cap), {'model': 'act', 'op': 'route', 'v': case.get('v'), 'kind': 'py',
                                'cap': cap_class(cap)}]
     if k == 'cmd':
         cap = case.get('capture', True)
+        if case.get('cls', 'CmdAction') != 'CmdAction':
+            cap = False          # the tools classes hand the live streams to Popen whatever io.capture says
         return [cmd_req(case, cap), {'model': 'act', 'op': 'route', 'v': case.get('v'), 'kind': 'cmd',
                                      'cap': cap_class(cap)}]
     if k == 'task':
@@ -156,7 +171,7 @@ def requests_for(case):
     raise ValueError(k)
 
 
-def judge_runner(case, obs, m):
+def judge_runner(case, obs, m, extra=None):
     bad = []
 
     def cmp(key, level, got, want):
@@ -183,23 +198,105 @@ def judge_runner(case, obs, m):
                 cmp('misattributed', 'P', obs[name].get(a), spec)
             cmp('misattributed', 'P', [k for k in obs[name] if k.startswith('foreign')], [])
         return bad
+    if case.get('reporter') == 'console':
+        return bad + judge_console(case, obs)
     cmp('tasks-reported', 'K', sorted(obs['reported']), sorted(str(i) for i in range(len(case['tasks']))))
     model_restored = (m['cell'] == 'orig')
     cmp('cell-model', 'K', obs['restored'], [model_restored, model_restored])
     cmp('cell-not-restored', 'P', obs['restored'], [True, True])
+    ids = actrun.action_ids(case)
+    forced = case['mode'] == 'forced'
     for name in ('out', 'err'):
         for a, spec in m['spec'].items():
             cmp('model-out', 'K', obs[name].get(a), m['out'].get(a))
             cmp('misattributed', 'P', obs[name].get(a), spec)
-    v = case.get('v', 0)
-    if v == 0:
+    shown = {'O': [], 'E': []}
+    for ti in obs['order']:
+        for ai in actrun.ran_actions(case, ti):
+            eo, ee, so, se = actrun.expected_action(case, ti, ai)
+            a = str(ids[(ti, ai)])
+            if a not in m['spec']:       # cmd-actions and uncaptured python-actions: not in the stream machine
+                cmp('captured-out', 'P' if eo is not None else 'K', obs['out'].get(a), eo)
+                cmp('captured-err', 'P' if ee is not None else 'K', obs['err'].get(a), ee)
+            shown['O'] += so
+            shown['E'] += se
+    if forced:
         for live in ('O', 'E'):
             cmp('model-orig', 'K', obs[live], m['origLog'])
             cmp('leak-to-original', 'P', obs[live], [])
-    elif case['par'] != 'process' and case['mode'] != 'forced':
-        shown = [[e[1], e[2]] for e in m['evs'] if e[0] == 'write']
-        cmp('live-run', 'P', obs['E'], shown)
-        cmp('live-run', 'P', obs['O'], shown if v == 2 else [])
+    elif case['par'] != 'process':
+        # shown live only as the (task's) verbosity and io.capture dictate
+        cmp('live-run', 'P', obs['O'], shown['O'])
+        cmp('live-run', 'P', obs['E'], shown['E'])
+    # task.values as the reporter (parent process) sees them for successful tasks: the Lean task loop
+    for ti, mt in (extra or {}).items():
+        if obs['reported'].get(str(ti)) == 'success':
+            cmp('task-values', 'P', obs.get('values', {}).get('t%d' % ti), mt['values'])
+    return bad
+
+
+def runner_task_requests(case):
+    """one `task` request per task: what Task.execute leaves in task.values / task.result"""
+    ids = actrun.action_ids(case)
+    reqs = {}
+    for ti, t in enumerate(case['tasks']):
+        acts = []
+        cap = t.get('capture', True)
+        for ai, spec in enumerate(t['actions']):
+            a = ids[(ti, ai)]
+            n = spec.get('writes', 0)
+            if spec.get('cmd'):
+                acts.append({'model': 'act', 'op': 'cmd', 'expandRaises': False, 'cap': cap_class(cap),
+                             'saveOut': spec.get('save_out'), 'rc': 0 if spec.get('end', 'true') == 'true' else 3,
+                             'out': actrun.tok_text(a, n, 'o'), 'err': actrun.tok_text(a, n, 'e')})
+            else:
+                e = spec.get('end', 'true')
+                ret = {'true': {'kind': 'true'}, 'false': {'kind': 'false'}, 'raise': {'kind': 'raises'},
+                       'str': {'kind': 'str', 's': 'res%d' % a},
+                       'dict': {'kind': 'dict', 'd': [[spec.get('key', 0), a]]}}[e]
+                acts.append({'model': 'act', 'op': 'py', 'kwargsRaise': False, 'ret': ret})
+        reqs[ti] = {'model': 'act', 'op': 'task', 'actions': acts}
+    return reqs
+
+
+def judge_console(case, obs):
+    """built-in console reporter (monitors only): the title of every executed task, and for every failed task the
+    captured stdout/stderr printed intact when ConsoleReporter.complete_run shows them"""
+    bad = []
+    rep = obs.get('report')
+    if obs.get('raised') or rep is None:
+        return [('impl-exception', 'K', str(obs.get('raised') or 'no report written'))]
+    ids = actrun.action_ids(case)
+    fv = case.get('fv', 0)
+    for ti, t in enumerate(case['tasks']):
+        name = 't%d' % ti
+        if t.get('title') == 'custom':
+            title = 'T<%s>' % name
+        elif t.get('title') == 'with_actions':
+            title = '%s => %s' % (name, '\n\t'.join('Cmd: ' + actrun.cmd_script_of(ids[(ti, ai)], sp).replace('%', '%%')
+                                                    for ai, sp in enumerate(t['actions'])))
+        else:
+            title = name
+        if ('.  %s\n' % title) not in rep:
+            bad.append(('title', 'P', 'no line %r in the report' % ('.  ' + title)))
+        ran = actrun.ran_actions(case, ti)
+        failed = t['actions'][ran[-1]].get('end', 'true') in ('false', 'raise')
+        if not failed:
+            continue
+        tv = actrun.task_verbosity(case, ti)
+        out = ''.join(actrun.tok_text(ids[(ti, ai)], t['actions'][ai].get('writes', 0), 'o') for ai in ran)
+        err = ''.join(actrun.tok_text(ids[(ti, ai)], t['actions'][ai].get('writes', 0), 'e') for ai in ran)
+        for sect, text, show in (('stderr', err, tv < 1 or fv > 0), ('stdout', out, tv < 2 or fv == 2)):
+            want = '%s <%s>:\n%s\n' % (name, sect, text)
+            if show and want not in rep:
+                bad.append(('failure-report-' + sect, 'P', 'captured %s of %s not printed intact: expected %r'
+                            % (sect, name, want)))
+            if not show and ('%s <%s>:' % (name, sect)) in rep:
+                bad.append(('failure-report-' + sect, 'K', 'section printed although failure_verbosity=%s, verbosity=%s'
+                            % (fv, tv)))
+    cmp_restored = obs['restored'] != [True, True]
+    if cmp_restored:
+        bad.append(('cell-not-restored', 'P', 'observed %s' % obs['restored']))
     return bad
 
 
@@ -209,7 +306,10 @@ def evaluate_runner(case, drv):
     except actlib.Hang as ex:
         return {'hang': str(ex)}, [], [('hang', 'P', str(ex))]
     m = drv.ask({'model': 'act', 'op': 'stream', 'evs': actrun.runner_evs(case, obs['order'])})
-    return obs, [m], judge_runner(case, obs, m)
+    extra = None
+    if not case.get('reporter'):
+        extra = {ti: drv.ask(r) for ti, r in runner_task_requests(case).items()}
+    return obs, [m] + [extra[k] for k in sorted(extra or {})], judge_runner(case, obs, m, extra)
 
 
 def fwd_forest(case, chan):
@@ -256,9 +356,33 @@ def judge(case, obs, model):
         return bad
     if k in ('py', 'cmd'):
         m, route = model
+        tool = case.get('cls') not in (None, 'CmdAction')
+        if k == 'cmd' and not tool and case.get('expand', 'ok') == 'ok' and route['out']['captured'] \
+                and any(actlib.strict_error(case)):
+            # the codec raises in a reader thread (decode_error='strict' on undecodable bytes, utf-16 without BOM):
+            # the thread terminates the process and dies.  Outcome and the other stream depend on a race with the
+            # process's own exit: monitors only -- the text decoded before the error stays captured, the other
+            # stream is a prefix of its text, nothing escapes execute(), the streams are restored.
+            raised = actlib.strict_error(case)
+            for name, data, r in zip(('out', 'err'), actlib.stream_bytes(case), raised):
+                want = actlib.simulate_decode(case, data)[0]
+                if route[name]['captured']:
+                    if r and sum(raised) == 1:
+                        cmp('captured-' + name, 'P', obs[name], want)
+                    else:
+                        # this stream may have been cut short by the other reader terminating the process
+                        full = data.decode(actlib.py_codec(case)[0], 'replace')
+                        if not (isinstance(obs[name], str) and (want.startswith(obs[name]) or full.startswith(obs[name]))):
+                            bad.append(('captured-' + name, 'P', 'observed %s is not a prefix of %s'
+                                        % (clip(obs[name]), clip(full))))
+            if obs['outcome'] not in ('ok', 'failed', 'error'):
+                bad.append(('outcome', 'K', 'decode error path: observed %s' % obs['outcome']))
+            cmp('cell-not-restored', 'P', obs['restored'], [True, True])
+            return bad
         silent = (k == 'py' and (case['ret']['cat'] == 'raisesbase' or case.get('kwargs_raise'))) or \
-                 (k == 'cmd' and (case.get('expand', 'ok') != 'ok' or actlib.expected_rc(case) < 0))
-        if k == 'cmd' and actlib.expected_rc(case) < 0 and obs['outcome'] == 'ok':
+                 (k == 'cmd' and not tool and (case.get('expand', 'ok') != 'ok' or actlib.expected_rc(case) < 0)) or \
+                 (tool and (case.get('expand', 'ok') != 'ok' or case.get('interrupt')))
+        if k == 'cmd' and not tool and actlib.expected_rc(case) < 0 and obs['outcome'] == 'ok':
             bad.append(('outcome', 'P', 'a process killed by a signal is reported successful'))
         cmp('outcome', 'K' if silent else 'P', obs['outcome'], m['outcome'])
         cmp('result', 'P', obs['result'], m['result'])
@@ -269,8 +393,20 @@ def judge(case, obs, model):
             done = list(zip(case.get('writes', []), m.get('body', {}).get('text', [])))
             tout = ''.join(w[1] for w, txt in done if txt and w[0] == 'o')
             terr = ''.join(w[1] for w, txt in done if txt and w[0] == 'e')
+        elif not route['out']['captured']:
+            # not captured: doit does not decode anything, the bytes go to the live stream / descriptor as they are
+            tout, terr = [d.decode('utf-8', 'replace') for d in actlib.stream_bytes(case)]
         else:
             tout, terr = actlib.expected_streams(case)
+            enc, derr = actlib.py_codec(case)
+            for data, text in zip(actlib.stream_bytes(case), (tout, terr)):
+                # the statement: the decoding of the whole byte stream
+                try:
+                    whole = data.decode(enc, derr)
+                except UnicodeError:
+                    continue          # (command never built: nothing is decoded)
+                if whole != text:
+                    bad.append(('codec-incremental-differs', 'K', 'whole %s vs incremental %s' % (clip(whole), clip(text))))
         if none_ran:
             tout = terr = ''
         capture_on = route['out']['captured']
@@ -481,13 +617,15 @@ def shrink(case, key, drv, max_evals=60):
 def describe(case):
     k = case['kind']
     if k == 'py':
-        return 'py %s/%s cap=%s v=%s kw=%s swap=%s writes=%d' % (
-            case['ret']['cat'], case['ret'].get('rep', ''), case.get('capture', True), case.get('v'),
+        return 'py%s %s/%s cap=%s v=%s kw=%s swap=%s writes=%d' % (
+            ' PythonInteractiveAction' if case.get('cls') == 'interactive' else '', case['ret']['cat'], case['ret'].get('rep', ''), case.get('capture', True), case.get('v'),
             case.get('kwargs_raise'), case.get('swap', 'none'), len(case.get('writes', [])))
     if k == 'cmd':
-        return 'cmd exit=%s cap=%s v=%s save_out=%s chunks=%d expand=%s buffering=%s' % (
+        extra = ' '.join('%s=%s' % (f, case[f]) for f in ('cls', 'interrupt', 'encoding', 'decode_error', 'env', 'cwd',
+                                                           'fmt', 'form', 'world') if case.get(f))
+        return 'cmd exit=%s cap=%s v=%s save_out=%s chunks=%d expand=%s buffering=%s %s' % (
             case.get('exit'), case.get('capture', True), case.get('v'), case.get('save_out'),
-            len(case.get('chunks', [])), case.get('expand', 'ok'), case.get('buffering', 0))
+            len(case.get('chunks', [])), case.get('expand', 'ok'), case.get('buffering', 0), extra)
     if k == 'runner':
         return 'runner %s%s n=%s %s v=%s tasks=%s' % (
             case['par'], (' -r json abort=%s' % case.get('abort')) if case.get('reporter') == 'json' else '',
@@ -565,6 +703,8 @@ def count_case(st, case):
             st.count('py.kwargs_raise')
         if case.get('swap', 'none') != 'none':
             st.count('py.swap')
+        if case.get('cls') == 'interactive':
+            st.count('py.cls:PythonInteractiveAction')
         if case.get('direct'):
             st.count('py.direct' + ('.notask' if case.get('notask') else ''))
         if case.get('repeat', 1) > 1:
@@ -587,6 +727,17 @@ def count_case(st, case):
             st.count('cmd.save_out')
         if case.get('buffering'):
             st.count('cmd.buffering>0')
+        for f in ('encoding', 'decode_error', 'fmt', 'cls'):
+            if case.get(f):
+                st.count('cmd.%s:%s' % (f, case[f]))
+        for f in ('env', 'cwd', 'world', 'interrupt'):
+            if case.get(f):
+                st.count('cmd.' + f)
+        if case.get('form') in ('callable_list', 'callable_magic'):
+            st.count('cmd.form:' + case['form'])
+        if case.get('cls', 'CmdAction') == 'CmdAction' and case.get('expand', 'ok') == 'ok' \
+                and case.get('capture', True) and any(actlib.strict_error(case)):
+            st.count('cmd.monitors_only:decode-error-path')
     elif k == 'task':
         st.count('task.len:%d' % len(case['actions']))
         if case.get('teardown'):
@@ -600,6 +751,20 @@ def count_case(st, case):
         st.count('runner.%s.%s' % (case['par'], case['mode']))
         if case.get('reporter') == 'json':
             st.count('runner.json.abort:%s' % case.get('abort'))
+        if case.get('reporter') == 'console':
+            st.count('runner.monitors_only:console.failure_verbosity:%s' % case.get('fv', 0))
+        for t in case['tasks']:
+            if 'capture' in t:
+                st.count('runner.task.capture:%s.%s' % (t['capture'], case['par']))
+            if 'tv' in t:
+                st.count('runner.task.verbosity:%s' % t['tv'])
+            if t.get('title'):
+                st.count('runner.title:' + t['title'])
+            for a in t['actions']:
+                if a.get('cmd'):
+                    st.count('runner.cmd' + ('.save_out.' + case['par'] if a.get('save_out') is not None else ''))
+                if a.get('end') == 'dict':
+                    st.count('runner.values.' + case['par'])
     elif k == 'overlap':
         st.count('overlap.threads:%d' % len(case['threads']))
         st.count('overlap.overlapping' if actlib.overlapping_pairs(case) else 'overlap.disjoint')
@@ -734,6 +899,9 @@ def gen_py(rng):
         c['v'] = rng.choice([0, 1, 2])
         if c['capture'] is True and rng.random() < 0.3:
             c['notask'] = True
+    elif r < 0.47:
+        c['cls'] = 'interactive'          # doit.tools.PythonInteractiveAction
+        c.pop('repeat', None)
     return c
 
 
@@ -779,7 +947,69 @@ def gen_cmd(rng, big=False):
         c['stream_v'] = rng.choice([0, 1, 2])
     if rng.random() < 0.1 and c['capture'] is True:
         c['buffering'] = rng.choice([1, 2, 3, 5, 7, 64, 1024])
+    if rng.random() < 0.35:
+        gen_cmd_options(rng, c)
     return c
+
+
+def gen_cmd_options(rng, c):
+    """wave 4 (#9, #24): encoding / decode_error / env / cwd / command builders / string-format modes / tools classes.
+    Only called for a share of the cases, so the older case stream keeps its shape."""
+    r = rng.random()
+    if r < 0.3:
+        enc = rng.choice(['latin-1', 'utf-16', 'utf-16-le'])
+        c['encoding'] = enc
+        chunks = []
+        for chan in 'oe':
+            if enc == 'utf-16':
+                chunks.append([chan, {'hex': 'fffe'}])           # a utf-16 *stream* needs its BOM
+            for _ in range(rng.randint(0, 3)):
+                chunks.append([chan, rng.choice([{'enc_text': rng.choice(['héllo\n', 'ç☃\n\nx', 'no newline', '\r\n']), 'enc': enc},
+                                                 {'hex': ''.join(rng.choice(['00', 'd8', 'ff', '0a', '41', 'e9', 'dc'])
+                                                                 for _ in range(rng.randint(1, 7)))}])])
+        rng.shuffle(chunks)
+        # keep every channel's BOM first
+        chunks.sort(key=lambda ch: 0 if ch[1].get('hex') == 'fffe' else 1)
+        c['chunks'] = chunks
+        if rng.random() < 0.3:
+            c['decode_error'] = rng.choice(['strict', 'ignore'])
+    elif r < 0.45:
+        c['decode_error'] = rng.choice(['strict', 'strict', 'ignore'])      # with the generated (often invalid) utf-8 bytes
+    elif r < 0.75:
+        c['world'] = True
+        c['form'] = rng.choice(['str', 'rawstr', 'callable', 'callable_magic', 'callable_magic'])
+        c['fmt'] = rng.choice(['old', 'new', 'both'])
+        c['expand'] = 'ok'
+        extra = []
+        for _ in range(rng.randint(1, 4)):
+            kind = rng.choice(['subst', 'lit', 'magic' if c['form'] == 'callable_magic' else 'subst', 'env'])
+            if kind == 'subst':
+                extra.append([rng.choice('oe'), {'subst': rng.choice(['targets', 'dependencies', 'changed', 'opt1'])}])
+            elif kind == 'magic':
+                extra.append([rng.choice('oe'), {'magic': rng.choice(['targets', 'dependencies', 'changed', 'opt1'])}])
+            elif kind == 'lit':
+                extra.append([rng.choice('oe'), {'lit': rng.choice(['100%', '{}', '{x} %s %%', '%(targets)s?', '}{'])}])
+            else:
+                c['env'] = True
+                extra.append([rng.choice('oe'), {'env': rng.choice(['C17VAR', 'C17EMPTY'])}])
+        c['chunks'] = c['chunks'][:2] + extra
+        rng.shuffle(c['chunks'])
+        if rng.random() < 0.4:
+            c['cwd'] = True
+    elif r < 0.85:
+        c['form'] = 'callable_list'
+        c['expand'] = 'ok'
+        c['cwd'] = rng.random() < 0.5
+        c['env'] = rng.random() < 0.5
+        if c['env']:
+            c['chunks'].append(['o', {'env': 'C17VAR'}])
+    else:
+        c['cls'] = rng.choice(['LongRunning', 'Interactive'])
+        c.pop('buffering', None)
+        c.pop('repeat', None)
+        if rng.random() < 0.25:
+            c['interrupt'] = True
+            c['exit'] = ['status', rng.choice([0, 3])]
 
 
 def gen_runner(rng):
@@ -801,10 +1031,55 @@ def gen_runner(rng):
                     a['end'] = 'true'
     c = {'kind': 'runner', 'par': par, 'n': rng.choice([2, 3]) if par != 'serial' else 1, 'mode': mode,
          'v': rng.choice([0, 0, 1, 2]), 'tasks': tasks}
-    if rng.random() < 0.35:
+    r = rng.random()
+    if r < 0.3:
         c['reporter'] = 'json'
         c['abort'] = rng.choice([None, None, 'kwargs', 'interrupt', 'devfull']) if par == 'serial' else None
+    elif r < 0.75:
+        gen_runner_options(rng, c, console=(r > 0.55))
     return c
+
+
+def gen_runner_options(rng, c, console):
+    """wave 4 (#19, #13): io.capture / verbosity per task, cmd-actions with save_out and python-actions returning
+    dicts (values crossing the process boundary), the built-in console reporter with titles and failure_verbosity"""
+    k = 0
+    for t in c['tasks']:
+        only_py = True
+        for a in t['actions']:
+            x = rng.random()
+            if x < 0.3:
+                a['cmd'] = True
+                a['end'] = 'false' if a.get('end') in ('false', 'raise') else 'true'
+                if rng.random() < 0.6:
+                    a['save_out'] = k % 6
+                    k += 1
+                only_py = False
+            elif x < 0.45 and a.get('end', 'true') in ('true', 'str'):
+                a['end'] = 'dict'
+                a['key'] = k % 6
+                k += 1
+        if not console:
+            x = rng.random()
+            if x < 0.2:
+                t['capture'] = None
+            elif x < 0.35 and only_py:
+                t['capture'] = False
+            if rng.random() < 0.4:
+                t['tv'] = rng.choice([0, 1, 2])
+        else:
+            if rng.random() < 0.5:
+                t['tv'] = rng.choice([0, 1, 2])
+            x = rng.random()
+            if x < 0.3:
+                t['title'] = 'custom'
+            elif x < 0.5 and all(a.get('cmd') for a in t['actions']):
+                t['title'] = 'with_actions'
+    if console:
+        c['reporter'] = 'console'
+        c['fv'] = rng.choice([0, 1, 2])
+        if not any(a.get('end') in ('false', 'raise') for t in c['tasks'] for a in t['actions']):
+            c['tasks'][-1]['actions'][-1]['end'] = 'false'
 
 
 def gen_task_action(rng, bad=None):
@@ -950,6 +1225,13 @@ def exhaustive_py():
                         if direct:
                             c['direct'] = True
                         out.append(c)
+    for ret in all_rets():
+        for v in (0, 2):
+            out.append({'kind': 'py', 'cls': 'interactive', 'ret': copy.deepcopy(ret), 'writes': writes, 'v': v,
+                        'capture': True})
+    for kw in actlib.KW_REPS[:2]:
+        out.append({'kind': 'py', 'cls': 'interactive', 'ret': {'cat': 'true'}, 'writes': writes, 'v': 0,
+                    'capture': True, 'kwargs_raise': kw})
     for kw in actlib.KW_REPS:
         for cap in CAPTURES:
             for v in VERBS:
@@ -999,6 +1281,37 @@ def exhaustive_cmd(full):
                     'capture': True, 'save_out': None, 'buffering': nbuf})
         out.append({'kind': 'cmd', 'chunks': [['o', {'text': 'x'}], ['o', {'rep': 'c3a9', 'n': 6}]],
                     'exit': ['status', 0], 'v': 0, 'capture': True, 'save_out': None, 'buffering': nbuf})
+    # doit.tools classes: every class x return code class x verbosity (+ interrupted, + command that cannot be built)
+    for cls in ('LongRunning', 'Interactive'):
+        for ex in (['status', 0], ['status', 1], ['status', 125], ['status', 126], ['status', 255], ['signal', 15]):
+            for v in (0, 2):
+                out.append({'kind': 'cmd', 'cls': cls, 'chunks': chunks, 'exit': ex, 'v': v, 'capture': True, 'save_out': 1})
+        for ex in (['status', 0], ['status', 4]):
+            out.append({'kind': 'cmd', 'cls': cls, 'chunks': [], 'exit': ex, 'v': 0, 'interrupt': True})
+        out.append({'kind': 'cmd', 'cls': cls, 'chunks': chunks, 'exit': ['status', 0], 'v': 0, 'expand': 'badkey'})
+    # CmdAction options
+    for enc, bom in (('latin-1', ''), ('utf-16', 'fffe'), ('utf-16-le', '')):
+        for derr in ('replace', 'strict', 'ignore'):
+            for nbuf in (0, 3):
+                ch = [[c, {'hex': bom}] for c in 'oe' if bom] + [['o', {'enc_text': 'héllo\n☃ x', 'enc': enc}],
+                                                                 ['e', {'enc_text': 'é\n', 'enc': enc}], ['o', {'hex': 'e9ff0a00d8'}]]
+                out.append({'kind': 'cmd', 'chunks': ch, 'exit': ['status', 0], 'v': 2, 'capture': True, 'save_out': 2,
+                            'encoding': enc, 'decode_error': derr, 'buffering': nbuf})
+    for derr in ('strict', 'ignore'):
+        for bad_chan in 'oe':
+            out.append({'kind': 'cmd', 'chunks': [['o', {'text': 'fine\n'}], ['e', {'text': 'fine too\n'}],
+                                                  [bad_chan, {'hex': '61ff620a'}], ['o', {'text': 'after\n'}]],
+                        'exit': ['status', 0], 'v': 0, 'capture': True, 'save_out': 1, 'decode_error': derr})
+    for fmt in ('old', 'new', 'both'):
+        for form in ('str', 'rawstr', 'callable', 'callable_magic', 'callable_list', 'list'):
+            ch = [['o', {'text': 'a'}], ['o', {'lit': '100% {x} %s }{'}], ['e', {'env': 'C17VAR'}]]
+            if form in ('str', 'rawstr', 'callable', 'callable_magic'):
+                ch += [['o', {'subst': 'targets'}], ['e', {'subst': 'opt1'}], ['o', {'subst': 'changed'}], ['o', {'subst': 'dependencies'}]]
+            if form == 'callable_magic':
+                ch += [['o', {'magic': 'targets'}], ['e', {'magic': 'changed'}], ['o', {'magic': 'opt1'}], ['o', {'magic': 'dependencies'}]]
+            for cwd in (False, True):
+                out.append({'kind': 'cmd', 'chunks': ch, 'exit': ['status', 0], 'v': 0, 'capture': True, 'save_out': None,
+                            'world': True, 'env': True, 'cwd': cwd, 'fmt': fmt, 'form': form})
     for expand in ('badkey', 'badelem', 'callable_raises'):
         for cap in CAPTURES:
             out.append({'kind': 'cmd', 'chunks': chunks, 'exit': ['status', 0], 'v': 2, 'capture': cap,
@@ -1185,6 +1498,34 @@ def run(ctx):
 
 
 FIXED_RUNNER = [
+    {'kind': 'runner', 'par': 'process', 'n': 2, 'mode': 'independent', 'v': 0,
+     'tasks': [{'actions': [{'cmd': True, 'writes': 2, 'save_out': 1}, {'writes': 1, 'end': 'dict', 'key': 2}]},
+               {'capture': None, 'tv': 2, 'actions': [{'cmd': True, 'writes': 1, 'save_out': 3}, {'writes': 2}]},
+               {'capture': False, 'actions': [{'writes': 1, 'end': 'str'}]}]},
+    {'kind': 'runner', 'par': 'thread', 'n': 2, 'mode': 'chain', 'v': 1,
+     'tasks': [{'tv': 2, 'actions': [{'writes': 1}, {'cmd': True, 'writes': 2, 'save_out': 0}]},
+               {'capture': False, 'tv': 0, 'actions': [{'writes': 2}]},
+               {'capture': None, 'actions': [{'writes': 1, 'end': 'dict', 'key': 4}]},
+               {'actions': [{'cmd': True, 'writes': 1, 'save_out': 5, 'end': 'false'}]}]},
+    {'kind': 'runner', 'par': 'serial', 'n': 1, 'mode': 'independent', 'v': 1,
+     'tasks': [{'tv': 0, 'actions': [{'writes': 2}]}, {'tv': 2, 'actions': [{'writes': 1}, {'cmd': True, 'writes': 1}]},
+               {'capture': False, 'actions': [{'writes': 1}]}, {'actions': [{'writes': 1}]}]},
+    {'kind': 'runner', 'par': 'serial', 'n': 1, 'mode': 'independent', 'v': 0, 'reporter': 'console', 'fv': 0,
+     'tasks': [{'title': 'custom', 'actions': [{'writes': 2, 'end': 'false'}]},
+               {'title': 'with_actions', 'actions': [{'cmd': True, 'writes': 1}, {'cmd': True, 'writes': 2, 'end': 'false'}]},
+               {'tv': 2, 'actions': [{'writes': 1}, {'writes': 3, 'end': 'raise'}]}, {'actions': [{'writes': 1}]}]},
+    {'kind': 'runner', 'par': 'serial', 'n': 1, 'mode': 'independent', 'v': 0, 'reporter': 'console', 'fv': 2,
+     'tasks': [{'title': 'custom', 'actions': [{'writes': 2, 'end': 'false'}]},
+               {'title': 'with_actions', 'actions': [{'cmd': True, 'writes': 1}, {'cmd': True, 'writes': 2, 'end': 'false'}]},
+               {'tv': 2, 'actions': [{'writes': 1}, {'writes': 3, 'end': 'raise'}]}, {'actions': [{'writes': 1}]}]},
+    {'kind': 'runner', 'par': 'serial', 'n': 1, 'mode': 'independent', 'v': 2, 'reporter': 'console', 'fv': 1,
+     'tasks': [{'title': 'custom', 'actions': [{'writes': 2, 'end': 'false'}]},
+               {'title': 'with_actions', 'actions': [{'cmd': True, 'writes': 1}, {'cmd': True, 'writes': 2, 'end': 'false'}]},
+               {'tv': 2, 'actions': [{'writes': 1}, {'writes': 3, 'end': 'raise'}]}, {'actions': [{'writes': 1}]}]},
+    {'kind': 'runner', 'par': 'serial', 'n': 1, 'mode': 'independent', 'v': 1, 'reporter': 'console', 'fv': 2,
+     'tasks': [{'title': 'custom', 'actions': [{'writes': 2, 'end': 'false'}]},
+               {'title': 'with_actions', 'actions': [{'cmd': True, 'writes': 1}, {'cmd': True, 'writes': 2, 'end': 'false'}]},
+               {'tv': 2, 'actions': [{'writes': 1}, {'writes': 3, 'end': 'raise'}]}, {'actions': [{'writes': 1}]}]},
     {'kind': 'runner', 'par': 'serial', 'n': 1, 'mode': 'independent', 'v': 0, 'reporter': 'json', 'abort': None,
      'tasks': [{'actions': [{'writes': 2, 'end': 'true'}, {'writes': 1, 'end': 'str'}]}, {'actions': [{'writes': 1, 'end': 'false'}]}]},
     {'kind': 'runner', 'par': 'serial', 'n': 1, 'mode': 'independent', 'v': 0, 'reporter': 'json', 'abort': 'kwargs',
